@@ -399,9 +399,39 @@ def r4(ctx, rep):
             rep.finding(R4, f'C08.R4/{lg.name}/access', m.relfile(lg.module), f'{lg.name}.Model.Access',
                         f'{lg.name} models enforce {sorted(c[0] for c in got)}; its documented frame condition is {sorted(c[0] for c in exp)}')
     rep.floor('C08.R4', 'logics', n, 57)
-    for name, frag in (('add', ('self[w1].add(w2)', 'self[w2]')), ('has', ('w1 in self and w2 in self[w1]',))):
-        fn = m.func(MODELS, f'BaseModel.Access.{name}')
-        ok = all(x in astq.u(fn) for x in frag)
-        rep.instance(R4, ok=ok, nontrivial=f'Access.{name}')
-        if not ok:
-            rep.finding(R4, f'C08.R4/Access.{name}', m.loc(MODELS, fn), f'BaseModel.Access.{name}', 'no longer records the pair (and registers both worlds)')
+    # Access.add / has / addall folded on a real defaultdict(set): a pair is recorded once, both worlds become keys, has() is exact
+    from collections import defaultdict as _dd
+    from ..bind import bound_class as _bc
+    cons_ = set()
+    ita = Interp({}, where='models/__init__.py BaseModel.Access', modtree=m.trees[MODELS])
+    AccM = _bc(m, ita, ClassRef(MODELS, 'BaseModel.Access'), base=_dd, consulted=cons_)
+    rep.consult(*sorted(cons_))
+    worlds = (0, 1, 2)
+    pairs = [(a_, b_) for a_ in worlds for b_ in worlds]
+    for seq in [()] + [(p_,) for p_ in pairs] + [((0, 1), (1, 2)), ((0, 1), (0, 1)), ((2, 2), (0, 2), (2, 0))]:
+        for via in ('add', 'addall'):
+            R = AccM(set)
+            try:
+                if via == 'add':
+                    for p_ in seq:
+                        R.add(p_)
+                else:
+                    R.addall(iter(seq))
+                before = {k: set(v) for k, v in R.items()}
+                has = {p_: R.has(p_) for p_ in pairs + [(5, 0), (0, 5)]}
+                after = {k: set(v) for k, v in R.items()}
+                err = None
+            except (Raised, TypeError, KeyError, AttributeError, ValueError) as e:
+                err = f'{type(e).__name__}: {getattr(e, "text", e)}'
+                before = after = has = None
+            want = {}
+            for a_, b_ in seq:
+                want.setdefault(a_, set()).add(b_)
+                want.setdefault(b_, set())
+            ok = err is None and before == want and has == {p_: p_ in set(seq) for p_ in has} and all(after.get(k) == v for k, v in before.items()) and \
+                all(not v for k, v in after.items() if k not in before)
+            rep.instance(R4, ok=ok, nontrivial=('Access', via, seq))
+            if not ok:
+                rep.finding(R4, f'C08.R4/Access.{via}', m.relfile(MODELS), f'BaseModel.Access.{via}',
+                            f'{via} of {list(seq)}: relation {before} (expected {want}), has() = {has}, error {err}: a pair is recorded with both worlds registered and has() answers exactly the recorded pairs')
+                break
